@@ -188,11 +188,7 @@ static void m_consume(int after_loop)
 			d = (what & BEV_EVENT_READING) ? R : W;
 			if (!after_loop) { failk(d, "fires-outside-loop", NULL, "timeout event delivered by an API call%.0lld%.0lld", 0, 0); break; }
 			if (!m.armed[d]) {
-				/* no timeout configured: did the interval that just ended start before the timeout
-				 * was cleared (the clearing did not stop it) or after (something revived it)? */
-				const char *why = !m.en[d] ? "while-disabled" : !m.tmo[d] ?
-				    (m.cleared_tmo[d] && e->t - m.cleared_tmo[d] > m.cleared_at[d] ?
-				     "without-timeout-set/started-after-clearing" : "without-timeout-set/survived-clearing") :
+				const char *why = !m.en[d] ? "while-disabled" : !m.tmo[d] ? "without-timeout-set" :
 				    m.susp_bw[d] ? "while-suspended-for-bandwidth" :
 				    d == R ? "while-suspended" : "with-empty-output";
 				failk(d, "spurious", why, "timeout fired although the idle timer is not running%.0lld%.0lld", 0, 0);
@@ -329,11 +325,6 @@ static uint64_t canon(void)
 		h = mc_hash_u64(h, m.armed[d] ? (uint64_t)(m.deadline[d] - vclock_us) : 0);
 		h = mc_hash_u64(h, m.armed[d] ? (uint64_t)m.by[d] : 0);
 		h = mc_hash_u64(h, (uint64_t)m.susp_bw[d]);
-		if (!m.tmo[d] && m.cleared_tmo[d]) {   /* only matters while no timeout is set; exact up to the old duration */
-			int64_t since = vclock_us - m.cleared_at[d];
-			h = mc_hash_u64(h, (uint64_t)m.cleared_tmo[d]);
-			h = mc_hash_u64(h, (uint64_t)(since > m.cleared_tmo[d] ? m.cleared_tmo[d] + 1 : since));
-		}
 	}
 	h = mc_hash_u64(h, m.wm_high); h = mc_hash_u64(h, m.inlen); h = mc_hash_u64(h, m.outlen);
 	h = h_bev(h, B);
